@@ -5,7 +5,8 @@ observation automaton).  Exposes correspond(ctx) for lib/props/c02.py:
   handle (_dispatch_get_main_queue_handle_4CF: poll / read) and calls _dispatch_main_queue_callback_4CF; other threads flood
   dispatch_async_f / dispatch_barrier_async_f / dispatch_sync_f / dispatch_barrier_sync_f / dispatch_async_and_wait_f /
   dispatch_barrier_async_and_wait_f onto dispatch_get_main_queue() and onto serial queues targeting it, under schedule
-  perturbation; work items that run a nested service of the handle; callbacks without a read; dispatch_main() from the main
+  perturbation; work items that run a nested service of the handle; work items that dispatch_async_f more items onto the main
+  queue from inside their callout (scenario resubmit); callbacks without a read; dispatch_main() from the main
   thread with pushers still running (workers take over, the process exits from the coordinator once the queue is at rest).
   1. every thread's recording (atomic operations on &_dispatch_main_q and on the callers' thread events, eventfd reads / writes,
      call / return / callout marks) is replayed through MainQT.tstep INSIDE Coq: every dq_state compare-exchange (successful or
@@ -60,9 +61,10 @@ TAGS = {1: "push_was_empty", 2: "push_not_empty", 3: "override_wakeup_bound", 4:
         24: "signal_before_wait", 25: "signal_needs_futex_wake", 26: "drain_exit_wakeup", 27: "cleanup2_rmw", 28: "cleanup2_list_not_empty",
         29: "cleanup2_released_empty", 30: "cleanup2_saw_dirty", 31: "cleanup2_enqueued_lane", 32: "worker_lock_attempt",
         33: "worker_locked", 34: "worker_lock_refused", 35: "worker_pop_last", 36: "worker_pop_raced_push", 37: "worker_unlocked",
-        38: "worker_unlock_refused_dirty", 39: "worker_head_not_published", 40: "stale_bound_wakeup_found_handle_closed"}
+        38: "worker_unlock_refused_dirty", 39: "worker_head_not_published", 40: "stale_bound_wakeup_found_handle_closed",
+        41: "item_on_bound_thread_submits_to_main_queue", 42: "item_on_worker_submits_to_main_queue"}
 # every stress run of the quick tier reaches these (dozens to thousands of times); missing one means the run did not test the protocol
-REQUIRED = [1, 2, 3, 5, 7, 8, 16, 17, 21, 25, 26, 27, 32, 33, 37]
+REQUIRED = [1, 2, 3, 5, 7, 8, 16, 17, 21, 25, 26, 27, 32, 33, 37, 41]
 
 
 def build():
@@ -245,10 +247,10 @@ def skipped_pokes(traces, main_thr):
 
 
 PLANS = {   # (scenario, permille, scale)
-    "quick": [("direct", 0, 1), ("direct", 200, 1), ("targeting", 150, 1), ("nested", 100, 1), ("spurious", 300, 1),
+    "quick": [("direct", 0, 1), ("direct", 200, 1), ("targeting", 150, 1), ("nested", 100, 1), ("spurious", 300, 1), ("resubmit", 150, 1),
               ("phase2", 100, 1), ("phase2", 350, 1), ("phase2_sync", 150, 1)],
     "thorough": [("direct", 0, 2), ("direct", 200, 2), ("direct", 450, 1), ("targeting", 150, 2), ("targeting", 400, 1),
-                 ("nested", 100, 2), ("nested", 350, 1), ("spurious", 300, 2), ("phase2", 0, 2), ("phase2", 100, 2),
+                 ("nested", 100, 2), ("nested", 350, 1), ("spurious", 300, 2), ("resubmit", 0, 2), ("resubmit", 300, 2), ("phase2", 0, 2), ("phase2", 100, 2),
                  ("phase2", 350, 2), ("phase2_sync", 150, 2), ("phase2_sync", 400, 1)],
 }
 
